@@ -231,6 +231,13 @@ def calls(fam: str, a: dict) -> List[Tuple[str, List[Any], Callable[[], Any]]]:
         subs = np.array([[1, 1], [a["minrow"], a["mincol"]]])
         vals = np.array([[1.0], [2.0]])
         out.append(("sptenmat.__init__", [subs, vals], lambda: ttb.sptenmat(subs, vals, I([0]), I([1, 2]), (2, 3, 2))))
+    elif fam == "sym_groups":
+        X = mk_dense([2] * a["N"])
+        g = I(a["grps"]) if len(a["grps"]) > 1 else I(a["grps"][0])
+        if a["version"]:
+            out.append(("tensor.symmetrize(version=1)", [X], lambda: X.symmetrize(g, 1)))
+        else:
+            out.append(("tensor.symmetrize", [X], lambda: X.symmetrize(g)))
     elif fam == "als_options":
         X = mk_dense(a["shape"])
         init = mk_kt(a["initrows"], a["initcols"])
